@@ -49,7 +49,7 @@ def log(*a):
 # ---------------------------------------------------------------------------------------------
 # harness
 
-def build_harness(work, race=False, tags="verif", cmd="drive"):
+def build_harness(work, race=False, tags="verif", cmd="drive", suffix=""):
     """Build harness/cmd/<cmd> against REPO's current working tree. Returns the binary path."""
     h = os.path.join(work, "harness-src")
     if not os.path.isdir(h):
@@ -59,7 +59,7 @@ def build_harness(work, race=False, tags="verif", cmd="drive"):
         open(os.path.join(h, "go.mod"), "w").write(gm)
         if os.path.exists(os.path.join(REPO, "go.sum")):
             shutil.copy(os.path.join(REPO, "go.sum"), os.path.join(h, "go.sum"))
-    out = os.path.join(work, cmd + ("-race" if race else ""))
+    out = os.path.join(work, cmd + suffix + ("-race" if race else ""))
     env = dict(os.environ, **GOENV)
     args = ["go", "build", "-tags", tags, "-o", out]
     if race:
